@@ -24,7 +24,9 @@ def run(ctx):
     ctx.rule = ("cases = (angle, axis, vector) triples of the rational family emitted by TLC with the exact Rodrigues result; "
                 "non-trivial = distinct triple whose vector is not parallel to the axis and whose angle is not 0")
     ctx.assumptions += ["closed form checked where cos(theta) and sin(theta)/|axis| are rational; generic angles are "
-                        "checked through the three invariant clauses after quantisation to 1/100 (tolerances in Trace_Rotation)"]
+                        "checked through the three invariant clauses after quantisation to 1/100 (tolerances in Trace_Rotation)",
+                        "axis components are 0 or at least 1e-150 in magnitude (their squares do not underflow); the caller "
+                        "passes differences of 3-decimal coordinates"]
     # ---- M ---------------------------------------------------------------------------------
     r = tlc.run("MC_Rotation", "MC_Rotation.cfg" if ctx.thorough() else "MC_Rotation_q.cfg", timeout=1800)
     ctx.add_tlc(r, "declarative clauses + mechanism on the rational family")
@@ -91,6 +93,42 @@ def run(ctx):
                     key = f"rodrigues-scale:{kind}"
                     if key not in bad:
                         bad[key] = {"theta": theta, "axis": [sa * c0 for c0 in n], "vec": vv, "expected": want, "got": g2}
+    # axes a rounding error away from a coordinate axis or plane (the case splits compare components with 0, so an
+    # axis with a component of 1e-9 takes the generic branch at the edge of its domain): the result must agree with
+    # the closed form for the exact axis, evaluated in floating point, to well within the conditioning of acos/asin
+    def rodrigues(theta, n, v):
+        nn = math.sqrt(sum(c * c for c in n))
+        u = [c / nn for c in n]
+        d = sum(a_ * b_ for a_, b_ in zip(u, v))
+        cr = (u[1] * v[2] - u[2] * v[1], u[2] * v[0] - u[0] * v[2], u[0] * v[1] - u[1] * v[0])
+        ct, st = math.cos(theta), math.sin(theta)
+        return [v[i] * ct + cr[i] * st + u[i] * d * (1 - ct) for i in range(3)]
+    near = []
+    for eps in (1e-9, -1e-9, 1e-12, 3e-7, -2e-5, 1e-15, -1e-100):
+        for big in (1.0, -1.0, -2.5):
+            near += [(eps, 0.0, big), (0.0, eps, big), (eps, -2 * eps, big), (big, eps, 0.0), (big, 0.0, eps),
+                     (eps, big, 0.0), (0.0, big, eps), (big, eps, -eps), (eps, big, eps)]
+    nn_ = 0
+    for n in near:
+        for theta in (0.7, -2.1, math.pi / 2):
+            for v in ((1.0, 0.0, 0.0), (0.3, -1.2, 0.8), (0.0, 1.0, 1.0)):
+                nn_ += 1
+                if not ctx.thorough() and nn_ % 3 != ctx.seed % 3:
+                    continue
+                ctx.count()
+                want = rodrigues(theta, n, v)
+                try:
+                    o3 = rotate_vector_around_an_axis(theta, Vector(*n), Vector(*v))
+                    g3 = (o3.x, o3.y, o3.z)
+                    e3 = max(abs(g3[i] - want[i]) for i in range(3))
+                except Exception as ex:  # noqa
+                    g3, e3 = repr(ex), 1.0
+                if e3 > 1e-6:
+                    big_i = max(range(3), key=lambda i: abs(n[i]))
+                    key = f"rodrigues-near:{'xyz'[big_i]}{'+' if n[big_i] > 0 else '-'}"
+                    if key not in bad:
+                        bad[key] = {"theta": theta, "axis": list(n), "vec": list(v), "expected": want, "got": g3}
+    ctx.extra["near_axis_cases"] = nn_
     ctx.traces += 1
     ctx.extra["sign_classes_of_axes"] = len({c[0] for c in classes})
     ctx.extra["angle_axis_classes"] = len(classes)
